@@ -17,7 +17,7 @@ TECHNIQUE = ('bounded exhaustive enumeration of report trees (every ordered tree
              'from an 11-title alphabet (incl. dotted titles) incl. reserved, repeated and invalid names x result placements) written by the real Rst / '
              'FormattedRst.write; the written directory is parsed back (pages, anchors, toctree entries, image targets) and compared with '
              'the tree')
-RULE = ('[session: one Rst object formats two of 6 report trees one after the other, both are written afterwards in either order] ' +
+RULE = ('[session: one Rst object formats two of 6 report trees one after the other, both are written afterwards in either order; one formatted report written three times into an empty directory, another report written in between] ' +
         'trees: root + k <= 3 sub-sections in every ordered-tree shape (1 + 1 + 2 + 5 shapes, depth <= 3) [thorough: k = 4, and the chain of '
         'depth 5 and the rejected depth 6]; titles of the sub-sections: every assignment over {A, B, index, conf, figures, v1.0, v1.5, "A " and "index " (trailing blank), "a/b", "..", '
         '"x\\0", ""}; results: none / one per section / two in the last section and one in the root (a failing TestEqual = table, a '
@@ -271,6 +271,23 @@ def session_cases(rep, scratch):
         judge(rep, tree[0], tree[1], tree[2], scratch, prepared=(report, secs, fmt2, f'one Rst object formatted the report {tree} twice; second one written'))
 
 
+    # one formatted report written several times (scratch directory first, final directory later; RstTestReportTask hands the
+    # FormattedRst object on to later tasks): every written copy is complete, whatever was written in between
+    for one, two in itertools.product(SESSION_TREES, SESSION_TREES[1:4]):
+        rst = Rst(rpr.Representation(rpr.FullRepresenter(), verbosity=Verbosity.FULL_DETAILS))
+        report, secs = build_report(*one)
+        fmt = rst.format_report(report=report, author='me', version='0')
+        other = None
+        if two is not one:
+            report2, secs2 = build_report(*two)
+            other = (two, report2, secs2, Rst(rpr.Representation(rpr.FullRepresenter(), verbosity=Verbosity.FULL_DETAILS)).format_report(
+                report=report2, author='me', version='0'))
+        for nth in (1, 2, 3):
+            judge(rep, one[0], one[1], one[2], scratch, prepared=(report, secs, fmt, f'the same FormattedRst written for the {nth}. time into an empty directory'))
+            if other and nth == 2:
+                judge(rep, two[0], two[1], two[2], scratch, prepared=(other[1], other[2], other[3], 'another formatted report written in between'))
+
+
 def depth_cases(rep, scratch):
     """Chains of depth 1..6 with ordinary titles: 5 levels are supported, the 6th must be refused."""
     for depth in range(1, 7):
@@ -331,7 +348,15 @@ def replay(case):
         import ast
         parents = tuple(case['parents (-1 = root)'])
         titles = tuple(ast.literal_eval(t) for t in case['titles'])
-        judge(rep, parents, titles, case['results'], scratch, n_workers=case.get('n_workers'))
+        if case.get('formatter'):
+            # a session case: the sessions are replayed (they are few) and the problems of the same tree / same note kept
+            every = Report()
+            session_cases(every, scratch)
+            for key, val in every.violations.items():
+                if val[1].get('titles') == case['titles'] and val[1].get('formatter') == case['formatter']:
+                    rep.violations[key] = val
+        else:
+            judge(rep, parents, titles, case['results'], scratch, n_workers=case.get('n_workers'))
     finally:
         shutil.rmtree(scratch, ignore_errors=True)
     return {'problems': {k: v[0] for k, v in rep.violations.items()}, 'violates': bool(rep.violations)}
